@@ -319,6 +319,18 @@ def run_impl_only(suite, lines, tag):
     return open(io).read().splitlines()
 
 
+def run_model_only(suite, lines, tag):
+    os.makedirs(WORK, exist_ok=True)
+    cases = os.path.join(WORK, f"{tag}.{suite}.mcases")
+    mo = os.path.join(WORK, f"{tag}.{suite}.monly")
+    with open(cases, "w") as f:
+        f.write("\n".join(lines) + "\n")
+    rc, out, dt = sh([DRIVER, suite, cases, mo])
+    if rc != 0:
+        raise Broken(f"driver:run:{suite}", out[-3000:])
+    return open(mo).read().splitlines()
+
+
 def diff(lines, impl, model):
     """indices where implementation and model disagree"""
     if len(impl) != len(lines) or len(model) != len(lines):
